@@ -6,7 +6,7 @@ VARIABLE x
 Obs == ndJsonDeserialize(IOEnv.VERIF_OBS)
 fG == <<102,105,101,108,100,71>> fH == <<102,105,101,108,100,72>>
 fB == <<102,105,101,108,100,66>> fC == <<102,105,101,108,100,67>> fD == <<102,105,101,108,100,68>> fE == <<102,105,101,108,100,69>>
-t_ren == <<114,101,110>> t_st == <<115,116>> t_pre == <<112,114,101>> t_only1 == <<111,110,108,121,49>> t_st0 == <<115,116,48>>
+t_ren == <<114,101,110>> t_st == <<115,116>> t_pre == <<112,114,101>> t_only1 == <<111,110,108,121,49>> t_st0 == <<115,116,48>> t_hpre == <<104,112,114,101>> t_hsplit == <<104,115,112,108,105,116>>
 \* the probe rule AFTER the two preceding items (set_state k=v, id st ; replace_string on fieldK, id pre ; fieldA -> fieldB and fieldK -> fieldK1, fieldK2, id ren ; replace_string on fieldK1 only, id only1)
 Rule == [ls |-> [cat |-> <<99>>, prod |-> <<119,105,110,100,111,119,115>>, svc |-> <<>>],
          tags |-> <<(<<97,116,116,97,99,107,46,116,49,48,48,48>>)>>, corr |-> FALSE,
@@ -16,9 +16,11 @@ Rule == [ls |-> [cat |-> <<99>>, prod |-> <<119,105,110,100,111,119,115>>, svc |
                      [field |-> fG, vals |-> <<VFieldRef(fH, 0, 0)>>, applied |-> <<>>],
                      \* fieldK: kv, renamed by `ren` to fieldK1 and fieldK2 (two items, both processed by ren)
                      [field |-> <<102,105,101,108,100,75,49>>, vals |-> <<VStr("str", <<107,120>>, <<>>)>>, applied |-> <<t_pre, t_ren, t_only1>>],      \* fieldK1: also processed by only1
-                     [field |-> <<102,105,101,108,100,75,50>>, vals |-> <<VStr("str", <<107,119>>, <<>>)>>, applied |-> <<t_pre, t_ren>>]>>,
+                     [field |-> <<102,105,101,108,100,75,50>>, vals |-> <<VStr("str", <<107,119>>, <<>>)>>, applied |-> <<t_pre, t_ren>>],
+                     \* Hashes: MD5=aa11, processed by hpre, then replaced by FileMD5: aa11 (the replacement stands for the item, its history included)
+                     [field |-> <<70,105,108,101,77,68,53>>, vals |-> <<VStr("str", <<97,97,49,49>>, <<>>)>>, applied |-> <<t_hpre, t_hsplit>>]>>,
          fields |-> <<[name |-> fB, applied |-> <<t_ren>>], [name |-> fE, applied |-> <<>>]>>,
-         applied |-> <<t_st, t_pre, t_ren, t_only1, t_st0, <<115,116,110>>>>,
+         applied |-> <<t_st, t_pre, t_ren, t_only1, t_hpre, t_hsplit, t_st0, <<115,116,110>>>>,
          state |-> <<(<<(<<107>>), SVal(<<118>>)>>), (<<(<<122>>), SVal(<<>>)>>), (<<(<<110>>), NVal(5)>>)>>,      \* k = "v", z = "", n = 5
          attrs |-> <<[name |-> <<115,101,118,101,114,105,116,121,95,115,99,111,114,101>>, kind |-> "int", n |-> 5, s |-> <<>>],
                      [name |-> <<108,101,118,101,108>>, kind |-> "level", n |-> 4, s |-> <<>>],
@@ -64,13 +66,13 @@ Clause(o) ==
         (IF ~o.ret.ok THEN (IF o.ret.sigma THEN "GateConfigurationRejected" ELSE "NonSigmaException")
          ELSE IF o.ret.out.rule # ActsOnRule(o.G, RulePP(o.pp)) THEN "GateIff:post-processing" ELSE "")
     ELSE IF ~o.ret.ok THEN (IF o.ret.sigma THEN "GateConfigurationRejected" ELSE "NonSigmaException")
-    ELSE IF (\E j \in 1..6 : o.ret.out.items[j] # ActsOnItem(o.G, j, Rule)) \/ o.ret.out.refs # <<ActsOnFieldRef(o.G, 4, fH, Rule)>> THEN
-        (IF HasApplied(o.G.field) /\ (\A j \in 1..6 : o.ret.out.items[j] = MechActsOnItem(o.G, j))
+    ELSE IF (\E j \in 1..7 : o.ret.out.items[j] # ActsOnItem(o.G, j, Rule)) \/ o.ret.out.refs # <<ActsOnFieldRef(o.G, 4, fH, Rule)>> THEN
+        (IF HasApplied(o.G.field) /\ (\A j \in 1..7 : o.ret.out.items[j] = MechActsOnItem(o.G, j))
                                  /\ o.ret.out.refs = <<MechActsOnRef(o.G, 4, fH)>>
          THEN "dev:Dev_FieldAppliedConditionSecondCheck"
-         ELSE IF (\A j \in 1..6 : o.ret.out.items[j] = MechPActsOnItem(o.G, j)) /\ o.ret.out.refs = <<MechPActsOnRef(o.G, 4, fH)>>
+         ELSE IF (\A j \in 1..7 : o.ret.out.items[j] = MechPActsOnItem(o.G, j)) /\ o.ret.out.refs = <<MechPActsOnRef(o.G, 4, fH)>>
          THEN "dev:Dev_FieldGroupPrefilterOverReferences"
-         ELSE IF \E j \in 1..6 : o.ret.out.items[j] # ActsOnItem(o.G, j, Rule) THEN "GateIff:detection-item"
+         ELSE IF \E j \in 1..7 : o.ret.out.items[j] # ActsOnItem(o.G, j, Rule) THEN "GateIff:detection-item"
          ELSE "GateIff:field-reference")
     ELSE IF \E j \in 1..2 : o.ret.out.fields[j] # ActsOnFieldEntry(o.G, j, Rule) THEN "GateIff:field-list"
     ELSE IF o.ret.out.rule # ActsOnRule(o.G, Rule) THEN "GateIff:rule"
